@@ -25,11 +25,20 @@ REFUTATION = re.compile(
     re.M)
 
 
+PTR_BYTES = int(os.environ.get("VERIF_PTR_BYTES", "8"))
+
+
 def prelude_text(repr_, shape, unsigned=None):
     t = open(os.path.join(VERIF, "contracts", "prelude.rs.tmpl")).read()
     bits, signed, comp = REPRS[repr_]
+    lo, hi = rmin(repr_), rmax(repr_)
+    if repr_ in ("usize", "isize"):
+        bits = PTR_BYTES * 8
+        lo = -(1 << (bits - 1)) if signed else 0
+        hi = (1 << (bits - 1)) - 1 if signed else (1 << bits) - 1
     sub = {
-        "@R@": repr_, "@U@": unsigned or comp, "@RMIN@": "(%d)" % rmin(repr_), "@RMAX@": str(rmax(repr_)), "@MOD@": str(1 << bits),
+        "@PTR_BYTES@": str(PTR_BYTES),
+        "@R@": repr_, "@U@": unsigned or comp, "@RMIN@": "(%d)" % lo, "@RMAX@": str(hi), "@MOD@": "(RMAX - RMIN + 1)",
         "@SHAPE_AXIOM@": "runs().len() == 1" if shape == "gapless" else "runs().len() >= 2",
         "@SIGNED@": "true" if signed else "false",
     }
